@@ -4,7 +4,8 @@
    Abstract path:  [exts |-> sequence of lower-cased extension tokens that end the last path
                              component (after a possibly empty stem),
                     hidden |-> TRUE when the stem is empty (".docx": the dot is a leading dot),
-                    tail |-> what follows the last token: "" | "." | " " | "?q" | "/b" ]
+                    tail |-> what follows the last token: "" | "." | " " | "?q" | "/b" | "/" | "/." | "//"
+                             (the last three: the name is used as a directory -- "Budget.xlsx/") ]
    Tables T = [reg   : function  type -> extractor function name,
                alias : function  token -> type,
                comp  : function  <<t1, t2>> -> type          (".t1.t2" compound suffixes),
@@ -23,7 +24,7 @@ Last(s) == s[Len(s)]
 (* ---- helpers shared by both entry points (os.path.splitext on the lower-cased path) ---- *)
 \* the extension os.path.splitext reports, as a token; "" = none; "?" = something that is in no table
 SplitExt(p) ==
-    IF p.tail = "/b" THEN ""                          \* last component "b" has no dot
+    IF p.tail \in {"/b", "/", "/.", "//"} THEN ""     \* last component "b" / "" / "." has no extension
     ELSE IF Len(p.exts) = 0 THEN ""
     ELSE IF p.hidden /\ Len(p.exts) = 1 /\ p.tail \in {"", " ", "?q"} THEN ""   \* ".docx": leading dot only
     ELSE IF p.tail = "." THEN "."                     \* "a.docx." -> "."
